@@ -4,7 +4,7 @@ ENTRY = dict(
         title="Only intact, correctly addressed frames are delivered",
         design_ref="DESIGN.md section 6 / C01",
         prop_modules=["C01", "C01SessionBytes", "C01Session", "C01SessionX", "C01Twins", "C01Chunks", "TieFrame", "TieReader"],
-        technique="Lean 4 theorem over all byte streams (reader model) + correspondence with FrameReader.read on a real StreamReader + Lean judge C01.spec on implementation deliveries",
+        technique="Lean 4 theorem over all byte streams (reader model) + correspondence with FrameReader.read on a real StreamReader + Lean judge C01.spec on implementation deliveries + code tie: FrameReader.read / _read_header / bcc translated from their source text on each run (tools/py2lean.py), `TieReader.read_eq : translated read = reader model` for all streams; reader sessions with abandoned calls (C01SessionBytes) and process history (harness/history.py)",
         level_text=(
             "Proof: `C01.delivered_only_if_well_formed` and `C01.holds` show for ALL byte streams that a delivery by the reader model "
             "is justified by the consumed bytes (start delimiter, LE16 length = consumed length in 10..1000, XOR checksum, recipient, "
